@@ -19,14 +19,31 @@ ASSUMPTIONS = ["keys with both '-' and '_' are outside the twin-spelling theorem
 EXPLANATION = ("Theorems in Props/C19.lean are about Model/Config.lean; every run drives the real config module and the model "
                "with the same op sequences and compares results, error kinds and the full config (order-sensitive).")
 
+TD = "torch.device:"   # sentinel spelling of a torch.device object inside the (JSON) op lists
 SEGS = ["a", "b", "a_b", "a-b", "c_d", "c-d", "k", "viz", "dtype_real", "dtype-real", "mkl", "threads", "m-n_o"]
 DEVICES = ["cpu", "CPU", "cuda", "cuda:0", "cuda:1", "gpu", "GPU", "mps", "xcpux", "cpu:0", "tpu", "", "Cuda:0", "xcuda",
-           -1, 0, 1, 5, True, None, 1.5, ["cpu"], "my-cpu-box", "Mps"]
+           -1, 0, 1, 5, True, None, 1.5, ["cpu"], "my-cpu-box", "Mps",
+           # torch.device objects (a documented input form of validate_device)
+           TD + "cpu", TD + "cpu:0", TD + "mps", TD + "mps:0", TD + "cuda", TD + "cuda:1", TD + "meta"]
+
+
+def real(v):
+    """the Python value an op-list value stands for (torch.device objects are spelled as strings there)"""
+    if isinstance(v, str) and v.startswith(TD):
+        import torch
+        return torch.device(v[len(TD):])
+    if isinstance(v, dict):
+        return {k: real(x) for k, x in v.items()}
+    return copy.deepcopy(v)
 
 
 def to_tree(v):
     if isinstance(v, dict):
         return {"d": [[k, to_tree(x)] for k, x in v.items()]}
+    if isinstance(v, str) and v.startswith(TD):
+        v = real(v)
+    if type(v).__name__ == "device" and type(v).__module__ == "torch":
+        return {"l": {"torchdev": [v.type, v.index]}}
     return {"l": v}
 
 
@@ -188,6 +205,8 @@ def ref_device(v):
     """accepted device strings on a machine without cuda/mps: exactly 'cpu' in any case, or None (→ cpu)"""
     if v is None:
         return "cpu"
+    if isinstance(v, str) and v.startswith(TD):
+        return "cpu" if real(v).type == "cpu" else None
     if isinstance(v, str) and v.lower() == "cpu":
         return "cpu"
     return None  # rejected
@@ -207,7 +226,7 @@ class Ref:
             if not isinstance(d[s], dict):
                 return "TypeError"
             d = d[s]
-        d[path[-1]] = norm(copy.deepcopy(v))
+        d[path[-1]] = norm(real(v))
         return None
 
 
@@ -237,10 +256,10 @@ def run_sequence(ctx, drv, cfgmod, ops, init, env, module_state):
         inside = None
         try:
             if kind == "set":
-                cfgmod.set(dict((k, copy.deepcopy(v)) for k, v in op["arg"]), **{k: copy.deepcopy(v) for k, v in op["kwargs"]})
+                cfgmod.set(dict((k, real(v)) for k, v in op["arg"]), **{k: real(v) for k, v in op["kwargs"]})
                 res = {"ok": None}
             elif kind == "with":
-                with cfgmod.set(dict((k, copy.deepcopy(v)) for k, v in op["arg"]), **{k: copy.deepcopy(v) for k, v in op["kwargs"]}):
+                with cfgmod.set(dict((k, real(v)) for k, v in op["arg"]), **{k: real(v) for k, v in op["kwargs"]}):
                     inside = copy.deepcopy(cfgmod.config)
                 res = {"ok": {"inside": to_tree(inside)}}
             elif kind == "get":
@@ -255,7 +274,7 @@ def run_sequence(ctx, drv, cfgmod, ops, init, env, module_state):
                 else:
                     res = {"ok": to_tree(cfgmod.get(op["key"]))}
             elif kind == "update_defaults":
-                cfgmod.update_defaults(copy.deepcopy(op["new"]))
+                cfgmod.update_defaults(real(op["new"]))
                 res = {"ok": None}
             elif kind == "refresh":
                 cfgmod.refresh()
@@ -273,7 +292,7 @@ def run_sequence(ctx, drv, cfgmod, ops, init, env, module_state):
         depth = max([len(k.split(".")) for k, _ in op.get("arg", [])] + [len(op.get("key", "").split("."))])
         twin = any("-" in k or "_" in k for k, _ in op.get("arg", [])) or "-" in op.get("key", "")
         if before:
-            ctx.mark((kind, "err" if "err" in res else "ok", depth, twin, min(len(json.dumps(before)) // 200, 5)))
+            ctx.mark((kind, "err" if "err" in res else "ok", depth, twin, min(len(json.dumps(before, default=str)) // 200, 5)))
         ctx.dist[f"op:{kind}"] += 1
         ctx.dist["outcome:" + (res.get("err") or "ok")] += 1
         impl_view = {"r": res, "cfg": to_tree(after), "ndefaults": len(cfgmod.defaults)}
@@ -341,7 +360,7 @@ def run_sequence(ctx, drv, cfgmod, ops, init, env, module_state):
                         later = [kk for kk, _ in applied[applied.index((k, v)) + 1:]]
                         if any(nk(kk).startswith(nk(k)) or nk(k).startswith(nk(kk)) for kk in later):
                             continue
-                        if norm(got) != norm(v):
+                        if norm(got) != norm(real(v)):
                             ctx.pred_fail("get-after-set", f"get({spell!r}) after set({k!r}) does not return the value set", case,
                                           observed=got, required=v)
         elif kind == "update_defaults":
